@@ -408,7 +408,9 @@ class Evaluator:
         if k in ('CallExpr', 'CXXMemberCallExpr') and n.get('callee', {}).get('inrepo') and self.depth < 3:
             # a file-local helper without effects that computes a value: evaluate it on the translated model
             cf = fn.prog.funcs.get(n['callee']['usr'])
-            if cf is not None and (cf.rec.get('internal') or '(anonymous namespace)' in cf.qname or is_own_lookup(fn, n, cf)) and cf.body is not None and cf.rec.get('ret') != 'void':
+            own_pred = cf is not None and cf.body is not None and not cf.implicit and cf.cls and cf.cls == fn.cls and cf.usr != fn.usr and (cf.rec.get('const') or cf.rec.get('static')) and \
+                (n['k'] == 'CallExpr' or (n.get('obj') is not None and self.R.render(n['obj']) in ('this', '*(this)')))
+            if cf is not None and (cf.rec.get('internal') or '(anonymous namespace)' in cf.qname or is_own_lookup(fn, n, cf) or own_pred) and cf.body is not None and cf.rec.get('ret') != 'void':
                 try:
                     import effects as FX
                     pure = not [e for e in FX.get(fn.prog).events_of(cf) if e[1] != 'local' and e[3] != 'io']
@@ -835,6 +837,19 @@ def walk(fn, model, start=None, stop=None, follow_loops=False, max_steps=5000, s
                     if 'init' in d and d.get('tc') in ('s', 'u', 'b', 'f') and d['id'] not in ev.R.single_def_locals():
                         val = ev.ev(d['init'])
                         model['local:' + d['name']] = wrap(val, d.get('tc'), d.get('tw')) if val is not None else None
+                    elif 'init' in d and not d.get('isref') and 'basic_string<char>' in str(d.get('type')) + str(d.get('ctype', '')) and d['id'] not in ev.R.single_def_locals():
+                        # a local copy of a string the model names (then possibly trimmed in place, below)
+                        try:
+                            val = ev.ev(d['init'])
+                        except OutOfRange:
+                            raise
+                        except Exception:
+                            val = None
+                        model['local:' + d['name']] = val if isinstance(val, str) else None
+            elif n['k'] == 'CallExpr' and n.get('callee', {}).get('qname') == 'ezc3d::removeTrailingSpaces' and len(n.get('args', [])) == 1:
+                t = fn.nodes[fn.strip(n['args'][0], 'all')]
+                if t['k'] == 'DeclRefExpr' and t['decl'].get('dk') == 'local' and isinstance(model.get('local:' + t['decl']['name']), str):
+                    model['local:' + t['decl']['name']] = model['local:' + t['decl']['name']].rstrip(' ')
             elif n['k'] == 'UnaryOperator' and n['op'] in ('++', '--'):
                 t = fn.nodes[fn.strip(n['ch'][0], 'all')]
                 if t['k'] == 'DeclRefExpr' and t['decl'].get('dk') == 'local':
